@@ -50,7 +50,11 @@ def build(nodes_cfg, services, node_order, svc_order, facility):
             n.add_component(name=cn, model_type=ComponentModelType[model])
     if facility:
         # (a site of its own: nothing else in the slice names it)
-        t.add_facility(name='fac1', site='S3', labels=Labels(vlan='100'))
+        if facility == 'l3vpn':
+            # ... whose own service is of a type without a site limit (no site is recorded on such a service)
+            t.add_facility(name='fac1', site='S3', nstype=ServiceType.L3VPN, labels=Labels(vlan='100'))
+        else:
+            t.add_facility(name='fac1', site='S3', labels=Labels(vlan='100'))
     used = {}
     for j in svc_order:
         kind, k = services[j]
@@ -298,7 +302,7 @@ def descriptions(tier):
                     continue           # a SmartNIC has two ports
                 if any(kd == 'pm_in' for kd, _ in ms) and not any(kd == 'bridge' for kd, _ in ms):
                     continue           # an in-slice mirror needs a labelled service port in the slice
-                for fac in ((False, True) if size <= 1 else (False,)):
+                for fac in ((False, True, 'l3vpn') if size <= 1 else (False,)):
                     out.append((cfg, ms, fac))
     return out
 
